@@ -124,6 +124,20 @@ func init() {
 			Trusted:     commonTrusted, Assumptions: commonAssumptions,
 		},
 		{
+			ID:          "C09",
+			Rules:       []RuleUse{use("R-EFFECT"), use("R-GLOBALS"), use("R-POOL"), use("R-POOLINIT")},
+			Explanation: "Decided for the v5 library, the embedded codec and the legacy library: R-EFFECT (a census of every store / copy / append / map update / delete / writing std call whose target memory has a type the caller can share with the library — byte slices and RawMessage contents and headers, Operation, Patch, ApplyOptions: the root of each is freshly allocated in the call, or it is a parameter and becomes a summary pushed to all call sites; no exported function ends up writing through a parameter; decoder targets are fresh or call-local; working types are never published into globals or into a Patch), R-GLOBALS (every package-level variable is immutable after init, a sync.Pool/sync.Map used only through its methods, or configuration that library code only reads), R-POOL (pooled decoder/encoder/scanner states are not used after Put, not retained, and no result aliases them — Marshal returns a copy), R-POOLINIT (no field of a recycled state can be read before it is rewritten, except reviewed idioms with their own structural checks; useNumber is forced in every entry point): together, nothing written by one call is visible to a later one and nothing a call reads was left by an earlier one.",
+			NotDecided:  "full functional determinism of the inherited codec (its type caches are trusted to be semantically transparent); map-iteration-order effects on output bytes (R-MAPORDER, claimed under C05 when built).",
+			Trusted:     commonTrusted, Assumptions: commonAssumptions,
+		},
+		{
+			ID:          "C10",
+			Rules:       []RuleUse{use("R-EFFECT"), use("R-GLOBALS"), use("R-POOL")},
+			Explanation: "Decided as a race-freedom argument by ownership: two concurrent calls can share only (a) their arguments — never written (R-EFFECT: no exported function writes through a []byte, RawMessage, Operation, Patch or ApplyOptions parameter, directly or through any callee), (b) package-level variables — immutable after init, or sync.Pool/sync.Map used only through their methods, or configuration that the library only reads (R-GLOBALS), (c) pooled objects — exclusively owned between Get and Put, never used after Put, never retained, never aliased by a result (R-POOL). Every other object a call writes has an unexported working type that is never published (R-EFFECT publication obligations). Hence no location is written by one call and accessed by another without synchronisation.",
+			NotDecided:  "that each concurrent call returns what it returns alone (follows from C09's rules plus race freedom; argued, not checked); correctness of sync.Pool/sync.Map/strings.Replacer themselves (trusted std); reflect-driven writes inside the inherited encoder caches.",
+			Trusted:     commonTrusted, Assumptions: commonAssumptions,
+		},
+		{
 			ID:          "C11",
 			Rules:       []RuleUse{{Rule: "R-GATE", Bodies: []string{"v5", "codec"}, KeyHas: []string{"DecodePatch", "sink "}}, use("R-DISPATCH", "v5"), {Rule: "R-RETSHAPE", Bodies: []string{"v5"}, KeyHas: []string{"DecodePatch"}}, {Rule: "R-NIL", Bodies: []string{"v5"}, KeyHas: []string{"(Operation)"}}},
 			Explanation: "Decided for the v5 body: R-GATE (malformed JSON is rejected before the validity-assuming parse), R-DISPATCH (b) (the accept/reject decision table kind × required member, extracted from validateOperation by partial evaluation per kind, equals RFC 6902 §4 in the library's dialect; unknown kinds are rejected; Operation.value() is nil only when the member is absent), R-DISPATCH (d) (every element is validated and a rejection reaches a (nil, error) return of DecodePatch), R-RETSHAPE (nil patch with every error), R-NIL over the Operation accessors.",
@@ -156,6 +170,13 @@ func init() {
 			Rules:       []RuleUse{use("R-GATE", "v5", "codec")},
 			Explanation: "Decided: R-GATE (every public v5 entry point consults json.Valid on each []byte parameter before parsing; the invalid edge returns an error / false).",
 			NotDecided:  "that the decoding pass agrees with the scanner on valid input (trusted codec contract); acceptance by the legacy package is the standard library's.",
+			Trusted:     commonTrusted, Assumptions: commonAssumptions,
+		},
+		{
+			ID:          "C17",
+			Rules:       []RuleUse{use("R-POOL", "codec"), use("R-POOLINIT", "codec"), {Rule: "R-EFFECT", Bodies: []string{"codec"}}, {Rule: "R-GLOBALS", Bodies: []string{"codec"}}},
+			Explanation: "Decided for the fork-added machinery of the embedded codec: R-POOL + R-POOLINIT (the pooled decodeState/encodeState/scanner are transparent: never used after Put, never aliased by a result, every field a recycled state can expose is rewritten first — data, off, savedError, opcode, useNumber, the scanner's step/err/endTop/parseState/bytes, the encoder's buffer and ptrLevel — with reviewed idioms for errorContext, disallowUnknownFields, lastKeys, ptrSeen), R-EFFECT + R-GLOBALS on the codec (no write into caller-visible byte slices; tables such as safeSet/htmlSafeSet/hex are immutable).",
+			NotDecided:  "equivalence with the standard library over all Go values and types (reflection-driven, value-level); Decoder/Encoder stream behaviour; round-trip of strings; the scanner's language (R-SCAN, added when built).",
 			Trusted:     commonTrusted, Assumptions: commonAssumptions,
 		},
 		{
